@@ -15,6 +15,25 @@ Proof. intros H. inversion H; subst. eauto 10. Qed.
 Lemma Forall3_nil_inv {X Y Z} (P : X -> Y -> Z -> Prop) LB LC : Forall3 P [] LB LC -> LB = [] /\ LC = [].
 Proof. intros H. inversion H; auto. Qed.
 
+Lemma Forall2_map_l {X Y Z} (P : Y -> Z -> Prop) (f : X -> Y) l l' :
+  Forall2 P (map f l) l' <-> Forall2 (fun a c => P (f a) c) l l'.
+Proof.
+  revert l'; induction l as [|a l IH]; intros l'; simpl; split; intros H.
+  - inversion H; constructor. - inversion H; constructor.
+  - inversion H; subst. constructor; auto. apply IH; auto.
+  - inversion H; subst. constructor; auto. apply IH; auto.
+Qed.
+Lemma Forall2_map_r {X Y Z} (P : X -> Z -> Prop) (f : Y -> Z) l l' :
+  Forall2 P l (map f l') <-> Forall2 (fun a c => P a (f c)) l l'.
+Proof.
+  revert l'; induction l as [|a l IH]; intros [|c l']; simpl; split; intros H; try (inversion H; fail); try constructor.
+  - inversion H; auto. - inversion H; subst. apply IH; auto.
+  - inversion H; auto. - inversion H; subst. apply IH; auto.
+Qed.
+Lemma Forall2_impl {X Y} (P Q : X -> Y -> Prop) l l' : (forall a c, P a c -> Q a c) -> Forall2 P l l' -> Forall2 Q l l'.
+Proof. intros HPQ. induction 1; constructor; auto. Qed.
+
+
 Section LdaProofs.
   Context {F : Type} {I : Fld F} {L : FldLaws F}.
   Add Field FF2 : (@Fth F I L).
@@ -676,6 +695,222 @@ Section LdaProofs.
     rewrite Ee. simpl. auto.
   Qed.
 
+
+  (* ================================================================ what the database spans *)
+  Lemma span_mono n vs ws u : (forall v, In v vs -> In v ws) -> span n vs u -> span n ws u.
+  Proof. intros Hi. induction 1; [apply span_zero | apply span_add; auto]. Qed.
+  Lemma span_vadd n vs u w : Forall (fun z => length z = n) vs -> span n vs u -> span n vs w -> span n vs (vadd u w).
+  Proof.
+    intros Hl Hu Hw. induction Hu as [| c v u Hin Hu IH].
+    - rewrite vadd_zero_l; auto. eapply span_length; eauto.
+    - rewrite vadd_assoc. apply span_add; auto.
+  Qed.
+  Lemma span_vscale n vs c u : span n vs u -> span n vs (vscale c u).
+  Proof.
+    induction 1 as [| d v u Hin Hu IH].
+    - rewrite vscale_zero. apply span_zero.
+    - rewrite vscale_vadd, vscale_vscale. apply span_add; auto.
+  Qed.
+  Lemma span_member n vs v : In v vs -> length v = n -> span n vs v.
+  Proof.
+    intros Hin Hl. rewrite <- (vscale_1 v), <- (vadd_zero_r (vscale f1 v) n) by (rewrite vscale_length; auto).
+    apply span_add; auto. apply span_zero.
+  Qed.
+  Lemma span_trans n vs ws u : Forall (fun z => length z = n) ws ->
+    (forall v, In v vs -> span n ws v) -> span n vs u -> span n ws u.
+  Proof.
+    intros Hl Hv. induction 1 as [| c v u Hin Hu IH].
+    - apply span_zero.
+    - apply span_vadd; auto. apply span_vscale; auto.
+  Qed.
+
+  Lemma nzlen_len n bs : Forall (nzlen n) bs -> Forall (fun z => length z = n) bs.
+  Proof. intros H. eapply Forall_impl; [| exact H]. intros a [Ha _]; exact Ha. Qed.
+
+  (* v = (something in the span) + mgs bs v *)
+  Lemma mgs_decomp n bs : forall v, Forall (nzlen n) bs -> length v = n ->
+    exists s, span n bs s /\ v = vadd s (mgs bs v).
+  Proof.
+    unfold mgs. induction bs as [|b0 bs IH]; intros v Hb Hv; simpl.
+    - exists (vzero n). split; [apply span_zero | rewrite vadd_zero_l; auto].
+    - apply Forall_cons_iff in Hb as [[Lb Nb] Hb].
+      assert (L1 : length (mgs_step v b0) = n) by (apply mgs_step_length; auto).
+      destruct (IH (mgs_step v b0) Hb L1) as (s1 & Hs1 & E1).
+      exists (vadd (vscale (hdot v b0 / nrm2 b0) b0) s1). split.
+      + apply span_add; simpl; auto. eapply span_mono; [| exact Hs1]. simpl; auto.
+      + rewrite vadd_assoc, <- E1. unfold mgs_step. rewrite vadd_comm.
+        symmetry. apply vadd_vsub_cancel. rewrite vscale_length; lia.
+  Qed.
+
+  (* per column of the reconstruction loop: pn rhs = (something in the span of the stored b's) + rhs_loc *)
+  Definition in_span_plus (n : nat) m (bs : list (vec F)) rhs rl : Prop :=
+    length rl = n /\ exists s, span n bs s /\ pn m rhs = vadd s rl.
+
+  Lemma gs_step_span n A m dt db p RHS RL SOL : Forall (pair_ok n A m) db -> In p db ->
+    Forall2 (in_span_plus n m (map p_b db)) RHS RL ->
+    Forall2 (in_span_plus n m (map p_b db)) RHS (fst (gs_step dt (RL, SOL) p)).
+  Proof.
+    intros Hdb Hin H2. unfold gs_step.
+    destruct (p_tag p && negb dt && negb (castable _)); simpl; auto.
+    destruct (p_tag p && negb dt && negb (castable _)); simpl; auto.
+    rewrite map_map, map2_map_r, map2_diag. apply Forall2_map_r.
+    assert (Hp : pair_ok n A m p) by (rewrite Forall_forall in Hdb; auto).
+    destruct Hp as (_ & Lb & _).
+    eapply Forall2_impl; [| exact H2]. intros rhs rl (Lrl & s & Hs & E). split.
+    - rewrite vsub_length; rewrite ?vscale_length; lia.
+    - exists (vadd (vscale (hdot rl (p_b p) / nrm2 (p_b p)) (p_b p)) s). split.
+      + apply span_add; auto. apply in_map; auto.
+      + rewrite E. rewrite (vadd_comm _ s), vadd_assoc. f_equal.
+        rewrite vadd_comm. symmetry. apply vadd_vsub_cancel. rewrite vscale_length; lia.
+  Qed.
+
+  Lemma gs_loop_span n A m dt db RHS : Forall (pair_ok n A m) db -> forall db0 RL SOL,
+    (forall p, In p db0 -> In p db) ->
+    Forall2 (in_span_plus n m (map p_b db)) RHS RL ->
+    Forall2 (in_span_plus n m (map p_b db)) RHS (fst (fold_left (gs_step dt) db0 (RL, SOL))).
+  Proof.
+    intros Hdb. induction db0 as [|p db0 IH]; intros RL SOL Hsub H2; simpl; auto.
+    pose proof (gs_step_span n A m dt db p RHS RL SOL Hdb (Hsub p (or_introl eq_refl)) H2) as H2'.
+    destruct (gs_step dt (RL, SOL) p) as [RL' SOL']. apply IH; auto. intros q Hq. apply Hsub. simpl; auto.
+  Qed.
+
+  Lemma in_span_plus_init n m bs RHS : length m = n -> Forall (fun r => length r = n) RHS ->
+    Forall2 (in_span_plus n m bs) RHS (map (pn m) RHS).
+  Proof.
+    intros Hm. induction 1 as [|rhs RHS Hr HR IH]; simpl; constructor; auto.
+    split. - rewrite pn_length; lia.
+    - exists (vzero n). split; [apply span_zero |]. rewrite vadd_zero_l; auto. rewrite pn_length; lia.
+  Qed.
+
+  Lemma add_db_span n A m dt db xn r : wfm n A -> Decoupled n A m -> db_inv n A m db ->
+    length xn = n -> mv A xn = r -> pn m r = r ->
+    span n (map p_b (add_db A m dt db xn)) r /\
+    (forall v, In v (map p_b db) -> In v (map p_b (add_db A m dt db xn))).
+  Proof.
+    intros W Dc [Hdb Ho] Hx EA Hr. pose proof W as [HlA _]. pose proof Dc as [Hlm _]. unfold add_db.
+    assert (Hst : xb_ok n A m (pn m xn, pn m (mv A xn))).
+    { repeat split; simpl.
+      - rewrite pn_length; lia.
+      - rewrite pn_length; rewrite mv_length; lia.
+      - apply (mv_pn_comm n); auto.
+      - apply pn_idem. }
+    destruct (orth_loop_ok n A m W db _ Hdb Hst) as [(H1 & H2 & H3 & H4) E].
+    destruct (fold_left orth_step db (pn m xn, pn m (mv A xn))) as [xa ba]. simpl in *.
+    rewrite EA, Hr in E.
+    assert (Lr : length r = n) by (rewrite <- EA, mv_length; lia).
+    destruct (mgs_decomp n (map p_b db) r (pair_ok_nzlen n A m db Hdb) Lr) as (s & Hs & Er). rewrite <- E in Er.
+    destruct (fis0 (nrm2 ba)) eqn:Ez.
+    - split; auto. apply is0_spec, nrm2_definite, all_zero_vzero in Ez.
+      assert (Ls : length s = n)
+        by (eapply span_length; [apply nzlen_len, (pair_ok_nzlen n A m); exact Hdb | exact Hs]).
+      rewrite Er, Ez, H2, vadd_zero_r by auto. exact Hs.
+    - rewrite map_app. simpl. split.
+      + rewrite Er, vadd_comm.
+        replace (vadd ba s) with (vadd (vscale f1 ba) s) by (rewrite vscale_1; reflexivity). apply span_add.
+        * apply in_or_app; simpl; auto.
+        * eapply span_mono; [| exact Hs]. intros v Hv. apply in_or_app; auto.
+      + intros v Hv. apply in_or_app; auto.
+  Qed.
+
+  Lemma add_db_loop_span n A m dt : wfm n A -> Decoupled n A m -> forall R XN db, db_inv n A m db ->
+    Forall2 (fun r x => length x = n /\ mv A x = r) R XN -> Forall (fun r => pn m r = r) R ->
+    Forall (fun r => span n (map p_b (fold_left (add_db A m dt) XN db)) r) R /\
+    (forall v, In v (map p_b db) -> In v (map p_b (fold_left (add_db A m dt) XN db))).
+  Proof.
+    intros W Dc. induction R as [|r R IH]; intros XN db Hdb H2 Hp.
+    - inversion H2; subst. simpl. split; auto.
+    - destruct (Forall2_cons_inv_l _ _ _ _ H2) as (xn & XN' & -> & [Lx Ex] & H2').
+      apply Forall_cons_iff in Hp as [Hpr Hp]. simpl.
+      destruct (add_db_span n A m dt db xn r W Dc Hdb Lx Ex Hpr) as [Hs Hi].
+      destruct (IH XN' (add_db A m dt db xn) (add_db_inv n A m dt db xn W Dc Hdb Lx) H2' Hp) as [Hs' Hi'].
+      split; auto. constructor; auto. eapply span_mono; [| exact Hs]. auto.
+  Qed.
+
+  Lemma cols_span n A m bs bsf : wfm n A -> forall RHS RL SOL,
+    Forall3 (col_ok n A m) RHS RL SOL -> Forall2 (in_span_plus n m bs) RHS RL ->
+    Forall (fun z => length z = n) bsf -> (forall v, In v bs -> In v bsf) ->
+    Forall (fun r => span n bsf r) (pick (did_of A SOL RHS) RL) ->
+    Forall (fun rhs => span n bsf (pn m rhs)) RHS.
+  Proof.
+    intros W. induction 1 as [|rhs rl sol RHS RL SOL Hc H3 IH]; intros H2 Hl Hi Hp.
+    - constructor.
+    - destruct (Forall2_cons_inv_l _ _ _ _ H2) as (rl' & RL' & Erl & (Lrl & s & Hs & E) & H2').
+      injection Erl as <- <-. unfold did_of in *. simpl in Hp.
+      destruct (negb (fis0 (nrm2 (vsub (mv A sol) rhs)))) eqn:Ed.
+      + apply Forall_cons_iff in Hp as [Hr Hp]. constructor; auto.
+        rewrite E. apply span_vadd; auto. eapply span_mono; eauto.
+      + constructor; auto.
+        pose proof (residual_zero n A m rhs rl sol W Hc Ed) as EA.
+        destruct Hc as (H1 & H2c & H3c & H4 & H5). rewrite EA in H4.
+        apply vadd_cancel_zero in H4; [| lia]. rewrite E, H4, Lrl, vadd_zero_r.
+        * eapply span_mono; eauto.
+        * eapply span_length; [| exact Hs]. clear - Hl Hi. apply Forall_forall. intros z Hz.
+          rewrite Forall_forall in Hl. auto.
+  Qed.
+
+
+  Lemma pick_pn n A m RHS RL SOL : Forall3 (col_ok n A m) RHS RL SOL -> forall did,
+    Forall (fun r => pn m r = r) (pick did RL).
+  Proof.
+    induction 1 as [|rhs rl sol RHS RL SOL Hc H3 IH]; intros [|[|] did]; simpl; auto.
+    constructor; auto. destruct Hc as (_ & _ & _ & _ & H5); auto.
+  Qed.
+  Lemma pick_all_false {X} (did : list bool) (l : list X) : existsb (fun c : bool => c) did = false -> pick did l = [].
+  Proof.
+    revert l; induction did as [|d did IH]; intros l E; simpl in *; auto.
+    apply orb_false_iff in E as [-> E]. destruct l; auto.
+  Qed.
+
+  (* after the call every right-hand side of the block lies (on the non-diagonal dofs) in the span of the stored
+     right-hand sides, and nothing is removed from the database *)
+  Theorem do_solve_spans n A cplxA m db adj solve_fn crhs isvec RHS X0 :
+    wfm n A -> Decoupled n A m -> db_inv n A m db -> solve_fn_ok n A solve_fn ->
+    Forall (fun r => length r = n) RHS ->
+    Forall (fun rhs => span n (map p_b (snd (fst (do_solve A cplxA m db adj solve_fn crhs isvec RHS X0)))) (pn m rhs)) RHS /\
+    (forall v, In v (map p_b db) -> In v (map p_b (snd (fst (do_solve A cplxA m db adj solve_fn crhs isvec RHS X0))))).
+  Proof.
+    intros W Dc Hdb Hfn HR. pose proof Dc as [Hlm _]. unfold do_solve.
+    pose proof (gs_loop_ok n A m (cplxA || crhs) RHS W Dc db _ _ (proj1 Hdb) (F3_init n A m RHS W Dc HR)) as H3.
+    pose proof (gs_loop_span n A m (cplxA || crhs) db RHS (proj1 Hdb) db (map (pn m) RHS)
+                  (map (fun r => diag_div m r (diag A)) RHS) (fun p H => H)
+                  (in_span_plus_init n m (map p_b db) RHS Hlm HR)) as H2.
+    destruct (fold_left (gs_step (cplxA || crhs)) db
+               (map (pn m) RHS, map (fun r => diag_div m r (diag A)) RHS)) as [RL SOL]. simpl in H3, H2.
+    fold (did_of A SOL RHS).
+    destruct (existsb (fun b0 : bool => b0) (did_of A SOL RHS)) eqn:Ee; simpl.
+    - pose proof (pick_lengths n A m RHS RL SOL H3 (did_of A SOL RHS)) as Hpl.
+      pose proof (Hfn (pick (did_of A SOL RHS) RL)
+                      (match X0 with None => None | Some X => Some (x0_loc m db (did_of A SOL RHS) isvec X) end) Hpl) as HX.
+      set (XN := solve_fn (pick (did_of A SOL RHS) RL)
+                   (match X0 with None => None | Some X => Some (x0_loc m db (did_of A SOL RHS) isvec X) end)) in *.
+      destruct (add_db_loop_span n A m (cplxA || crhs) W Dc _ XN db Hdb HX (pick_pn n A m RHS RL SOL H3 _)) as [Hs Hi].
+      split; auto.
+      apply (cols_span n A m (map p_b db) _ W RHS RL SOL H3 H2); auto.
+      apply nzlen_len, (pair_ok_nzlen n A m). apply add_db_loop_inv; auto.
+      clear - HX. induction HX as [|r0 x R X [Hl _] HX IH]; constructor; auto.
+    - split; auto.
+      apply (cols_span n A m (map p_b db) _ W RHS RL SOL H3 H2); auto.
+      + apply nzlen_len, (pair_ok_nzlen n A m), Hdb.
+      + rewrite pick_all_false; auto.
+  Qed.
+
+
+  (* with an empty database (the state right after update()) nothing can be reused: a right-hand side whose
+     non-diagonal part is non-zero reaches the inner solver *)
+  Theorem empty_db_calls_inner n A cplxA m adj solve_fn crhs isvec rhs X0 :
+    wfm n A -> Decoupled n A m -> length rhs = n -> pn m rhs <> vzero n ->
+    snd (do_solve A cplxA m [] adj solve_fn crhs isvec [rhs] X0) <> None.
+  Proof.
+    intros W Dc Hr Hnz. unfold do_solve. cbn [fold_left map map2 existsb].
+    pose proof (col_ok_init n A m rhs W Dc Hr) as Hc.
+    destruct (negb (fis0 (nrm2 (vsub (mv A (diag_div m rhs (diag A))) rhs)))) eqn:Ed; cbn [orb].
+    - discriminate.
+    - exfalso. apply Hnz.
+      pose proof (residual_zero n A m rhs _ _ W Hc Ed) as EA.
+      destruct Hc as (H1 & H2 & H3 & H4 & H5). rewrite EA in H4.
+      apply vadd_cancel_zero in H4; [| lia]. rewrite H4, H2. reflexivity.
+  Qed.
+
   (* ================================================================ the omitted normalisation *)
   Lemma conj_nonzero (s : F) : s <> 0 -> fconj s <> 0.
   Proof. intros Hs E. apply Hs. rewrite <- (conj_invol s), E. apply conj_0. Qed.
@@ -753,24 +988,6 @@ Section LdaProofs.
         + unfold is_symmetric in E. apply mat_eqb_spec in E. unfold mH. rewrite Hreal; auto. }
     split; [apply diag_detect_sound; auto |]. split; [exact Hin |]. split; apply db_inv_nil.
   Qed.
-
-  Lemma Forall2_map_l {X Y Z} (P : Y -> Z -> Prop) (f : X -> Y) l l' :
-    Forall2 P (map f l) l' <-> Forall2 (fun a c => P (f a) c) l l'.
-  Proof.
-    revert l'; induction l as [|a l IH]; intros l'; simpl; split; intros H.
-    - inversion H; constructor. - inversion H; constructor.
-    - inversion H; subst. constructor; auto. apply IH; auto.
-    - inversion H; subst. constructor; auto. apply IH; auto.
-  Qed.
-  Lemma Forall2_map_r {X Y Z} (P : X -> Z -> Prop) (f : Y -> Z) l l' :
-    Forall2 P l (map f l') <-> Forall2 (fun a c => P a (f c)) l l'.
-  Proof.
-    revert l'; induction l as [|a l IH]; intros [|c l']; simpl; split; intros H; try (inversion H; fail); try constructor.
-    - inversion H; auto. - inversion H; subst. apply IH; auto.
-    - inversion H; auto. - inversion H; subst. apply IH; auto.
-  Qed.
-  Lemma Forall2_impl {X Y} (P Q : X -> Y -> Prop) l l' : (forall a c, P a c -> Q a c) -> Forall2 P l l' -> Forall2 Q l l'.
-  Proof. intros HPQ. induction 1; constructor; auto. Qed.
 
   (* the returned vectors solve the requested system exactly; the invariant is preserved *)
   Theorem solve_correct st c A crhs isvec RHS X0 t :
@@ -910,6 +1127,128 @@ Section LdaProofs.
       destruct (do_solve A c (s_mask st) (s_dbN st) false (inner A false) crhs isvec RHS' X0) as [[X db'] cl].
       cbn [fst snd] in *. subst cl db'. eexists. split; [reflexivity | split; [reflexivity |]].
       destruct st as [a1 a2 a3 a4 a5 a6]; cbn [s_A s_sym s_herm s_mask s_dbN s_dbH] in *; subst a1 a2 a3; reflexivity.
+  Qed.
+
+  (* ================================================================ reuse along a history *)
+  Definition same_frame (st st' : @state F) : Prop :=
+    s_A st' = s_A st /\ s_sym st' = s_sym st /\ s_herm st' = s_herm st /\ s_mask st' = s_mask st /\
+    (forall v, In v (map p_b (s_dbN st)) -> In v (map p_b (s_dbN st'))) /\
+    (forall v, In v (map p_b (s_dbH st)) -> In v (map p_b (s_dbH st'))).
+
+  Lemma same_frame_refl st : same_frame st st.
+  Proof. repeat split; auto. Qed.
+  Lemma same_frame_trans st1 st2 st3 : same_frame st1 st2 -> same_frame st2 st3 -> same_frame st1 st3.
+  Proof.
+    intros (A1 & B1 & C1 & D1 & E1 & F1) (A2 & B2 & C2 & D2 & E2 & F2).
+    repeat split; try congruence; auto.
+  Qed.
+
+  Definition tr_rhs (sym herm : bool) (t : Z) (rhs : vec F) : vec F :=
+    if conj_mode sym herm t then vconj rhs else rhs.
+
+  (* a solve keeps matrix, flags and mask, only adds to the databases, and afterwards the (transformed,
+     non-diagonal part of the) right-hand sides lie in the span of the selected database *)
+  Lemma solve_frame st c A sym herm crhs isvec RHS X0 t :
+    state_inv st -> s_A st = Some (c, A) -> s_sym st = Some sym -> s_herm st = Some herm ->
+    trans_valid t = true -> Forall (fun r => length r = length A) RHS ->
+    same_frame st (fst (solve inner st crhs isvec RHS X0 t)) /\
+    Forall (fun rhs => span (length A) (map p_b (sel_db (fst (solve inner st crhs isvec RHS X0 t)) sym herm t))
+                            (pn (s_mask st) (tr_rhs sym herm t rhs))) RHS.
+  Proof.
+    intros Hinv EA Es Eh Ht HR. unfold state_inv in Hinv. rewrite EA in Hinv.
+    destruct Hinv as (n & sym' & herm' & W & Es' & Eh' & Htr & Dc & Hin & HdN & HdH).
+    rewrite Es in Es'. rewrite Eh in Eh'. injection Es' as <-. injection Eh' as <-.
+    assert (En : length A = n) by apply W. rewrite En in *.
+    unfold solve. rewrite Ht, EA, Es, Eh. cbn [negb]. unfold sel_db, tr_rhs.
+    set (cm := conj_mode sym herm t) in *. set (am := adjoint_mode sym herm t) in *.
+    set (RHS' := if cm then map vconj RHS else RHS).
+    assert (HR' : Forall (fun r => length r = n) RHS').
+    { unfold RHS'. destruct cm; auto. apply Forall_forall. intros r0 Hr. apply in_map_iff in Hr as [r1 [<- Hr0]].
+      rewrite vconj_length. rewrite Forall_forall in HR. auto. }
+    assert (Hback : forall bs, Forall (fun rhs => span n bs (pn (s_mask st) rhs)) RHS' ->
+                    Forall (fun rhs => span n bs (pn (s_mask st) (if cm then vconj rhs else rhs))) RHS).
+    { intros bs H. unfold RHS' in H. destruct cm; auto. rewrite Forall_forall in *. intros r0 Hr.
+      apply H. apply in_map; auto. }
+    destruct am eqn:Eam.
+    - destruct (do_solve_spans n (mH A) c (s_mask st) (s_dbH st) true (inner A true) crhs isvec RHS' X0
+                  (wfm_mH n A W) (Decoupled_mH n A _ W Dc) HdH (Hin true) HR') as [Hs Hi].
+      destruct (do_solve (mH A) c (s_mask st) (s_dbH st) true (inner A true) crhs isvec RHS' X0) as [[X db'] cl].
+      cbn [fst snd s_A s_sym s_herm s_mask s_dbN s_dbH] in *. split.
+      + repeat split; auto.
+      + apply Hback; auto.
+    - destruct (do_solve_spans n A c (s_mask st) (s_dbN st) false (inner A false) crhs isvec RHS' X0
+                  W Dc HdN (Hin false) HR') as [Hs Hi].
+      destruct (do_solve A c (s_mask st) (s_dbN st) false (inner A false) crhs isvec RHS' X0) as [[X db'] cl].
+      cbn [fst snd s_A s_sym s_herm s_mask s_dbN s_dbH] in *. split.
+      + repeat split; auto.
+      + apply Hback; auto.
+  Qed.
+
+  Fixpoint solves_only (ops : list (@op F)) : Prop :=
+    match ops with
+    | [] => True
+    | Update _ _ :: _ => False
+    | Solve _ _ _ _ _ :: ops' => solves_only ops'
+    end.
+
+  Lemma final_frame : forall ops st, state_inv st -> s_A st <> None -> solves_only ops -> hist_ok st ops ->
+    same_frame st (final inner st ops) /\ state_inv (final inner st ops).
+  Proof.
+    induction ops as [|o ops IH]; intros st Hinv HA Hso Hh.
+    - simpl. split; auto using same_frame_refl.
+    - destruct o as [c0 A0 | crhs isvec RHS X0 t]; [contradiction |].
+      cbn [final]. destruct Hh as [[Ht HR] Hh]. rewrite step_solve_fst in *.
+      destruct (s_A st) as [[c A]|] eqn:EA; [| congruence].
+      pose proof Hinv as Hinv0. unfold state_inv in Hinv0. rewrite EA in Hinv0.
+      destruct Hinv0 as (n & sym & herm & _ & Es & Eh & _).
+      destruct (solve_correct st c A crhs isvec RHS X0 t Hinv EA Ht HR) as (res & _ & _ & Hinv').
+      destruct (solve_frame st c A sym herm crhs isvec RHS X0 t Hinv EA Es Eh Ht HR) as [Hf _].
+      destruct (IH _ Hinv') as [Hf' Hi']; auto.
+      + destruct Hf as (EA' & _). rewrite EA', EA. discriminate.
+      + split; auto. eapply same_frame_trans; eauto.
+  Qed.
+
+  (* a right-hand side in the span of right-hand sides solved EARLIER IN THE HISTORY for the current matrix through
+     the same storage (no update() in between) is answered without calling the inner solver *)
+  Theorem history_reuse st c A sym herm crhs1 isvec1 RHS1 X01 t1 ops crhs2 isvec2 RHS2 X02 t2 :
+    state_inv st -> s_A st = Some (c, A) -> s_sym st = Some sym -> s_herm st = Some herm ->
+    trans_valid t1 = true -> Forall (fun r => length r = length A) RHS1 ->
+    solves_only ops -> hist_ok (fst (solve inner st crhs1 isvec1 RHS1 X01 t1)) ops ->
+    trans_valid t2 = true -> Forall (fun r => length r = length A) RHS2 ->
+    adjoint_mode sym herm t2 = adjoint_mode sym herm t1 ->
+    (c || crhs2 = true \/
+     Forall (fun p => p_tag p = false)
+            (sel_db (final inner (fst (solve inner st crhs1 isvec1 RHS1 X01 t1)) ops) sym herm t2)) ->
+    Forall (fun rhs2 => span (length A) (map (fun r1 => pn (s_mask st) (tr_rhs sym herm t1 r1)) RHS1)
+                             (pn (s_mask st) (tr_rhs sym herm t2 rhs2))) RHS2 ->
+    exists res, snd (solve inner (final inner (fst (solve inner st crhs1 isvec1 RHS1 X01 t1)) ops)
+                           crhs2 isvec2 RHS2 X02 t2) = inr res /\ r_call res = None.
+  Proof.
+    intros Hinv EA Es Eh Ht1 HR1 Hso Hh Ht2 HR2 Eam Hnar Hsp.
+    destruct (solve_correct st c A crhs1 isvec1 RHS1 X01 t1 Hinv EA Ht1 HR1) as (res1 & _ & _ & Hinv1).
+    destruct (solve_frame st c A sym herm crhs1 isvec1 RHS1 X01 t1 Hinv EA Es Eh Ht1 HR1) as [Hf1 Hs1].
+    set (st1 := fst (solve inner st crhs1 isvec1 RHS1 X01 t1)) in *.
+    assert (HA1 : s_A st1 <> None) by (destruct Hf1 as (E & _); rewrite E, EA; discriminate).
+    destruct (final_frame ops st1 Hinv1 HA1 Hso Hh) as [Hf2 Hinv2].
+    set (st2 := final inner st1 ops) in *.
+    pose proof (same_frame_trans _ _ _ Hf1 Hf2) as (EA2 & Es2 & Eh2 & Em2 & _ & _).
+    rewrite EA in EA2. rewrite Es in Es2. rewrite Eh in Eh2.
+    (* the selected database of st2 contains the one of st1 *)
+    assert (Hincl : forall v, In v (map p_b (sel_db st1 sym herm t1)) -> In v (map p_b (sel_db st2 sym herm t2))).
+    { unfold sel_db. rewrite Eam. destruct Hf2 as (_ & _ & _ & _ & HN & HH).
+      destruct (adjoint_mode sym herm t1); auto. }
+    assert (Hlen : Forall (fun z => length z = length A) (map p_b (sel_db st2 sym herm t2))).
+    { pose proof Hinv2 as H. unfold state_inv in H. rewrite EA2 in H.
+      destruct H as (n & sym' & herm' & W & _ & _ & _ & _ & _ & HdN & HdH).
+      assert (En : length A = n) by apply W. rewrite En. unfold sel_db.
+      destruct (adjoint_mode sym herm t2); [apply nzlen_len, (pair_ok_nzlen n (mH A) (s_mask st2)), HdH
+                                           | apply nzlen_len, (pair_ok_nzlen n A (s_mask st2)), HdN]. }
+    destruct (solve_reuse st2 c A sym herm crhs2 isvec2 RHS2 X02 t2 Hinv2 EA2 Es2 Eh2 Ht2 HR2 Hnar) as (res & E1 & E2 & _).
+    - rewrite Em2. eapply Forall_impl; [| exact Hsp]. intros rhs2 H. fold (tr_rhs sym herm t2 rhs2).
+      eapply span_trans; [exact Hlen | | exact H].
+      intros v Hv. apply in_map_iff in Hv as [r1 [<- Hr1]].
+      rewrite Forall_forall in Hs1. eapply span_mono; [exact Hincl |]. apply Hs1; auto.
+    - eauto.
   Qed.
 
 End LdaProofs.
